@@ -323,3 +323,26 @@ class Report:
 
 def rng_for(seed, salt):
     return random.Random("%s/%s" % (seed, salt))
+
+
+def add_impl_coverage(pid, cov):
+    """append statement / branch coverage of /repo/labella (measured with coverage.py during this run, in-process part only) to the
+    evidence file: shows how much of the code the correspondence actually drove"""
+    path = os.path.join(VERIF, "evidence", pid + ".json")
+    try:
+        with open(path) as fh:
+            ev = json.load(fh)
+        out = {}
+        data = cov.get_data()
+        for f in sorted(data.measured_files()):
+            _, stmts, _, missing, _ = cov.analysis2(f)
+            arcs = data.arcs(f) or []
+            if len(stmts) - len(missing) <= len([1 for _ in ()]) + 8:      # only imported, not driven, by this check
+                continue
+            out[os.path.relpath(f, REPO)] = {"statements": len(stmts), "executed": len(stmts) - len(missing),
+                                             "missing_lines": missing[:60], "arcs_executed": len(arcs)}
+        ev["coverage"]["impl_code_coverage"] = out
+        with open(path, "w") as fh:
+            json.dump(ev, fh, indent=1, default=str)
+    except Exception as e:      # never let the measurement change a verdict
+        print("  | coverage summary not written: %s" % e)
